@@ -107,6 +107,20 @@ def run(ctx):
             src = {o.call.name.split("::")[-1] for o in origins(b_, op, taint=True) if o.kind == "call"}
             if "new" in src or "default" in src:
                 fresh += 1
+    # ... and a pool that is *derived* from an existing one (any ConnectionPool built in a method that has one as receiver, e.g. to refresh settings
+    # at a reload) must share that one's gate: held clients sleep on the old Notify, RESUME reaches only the pools in POOLS (round 6)
+    for b_, blk, st in F.aggregates("pgcat::pool::ConnectionPool"):
+        has_self = b_.argc >= 1 and re.fullmatch(r"(&(mut )?)?pgcat::pool::ConnectionPool", b_.locals[1]["ty"].replace("'_ ", "").strip()) is not None
+        if not has_self:
+            continue
+        for fld in sorted(gate | {"paused_waiter"}):
+            if fld not in st["rv"]["fields"]:
+                continue
+            op = st["rv"]["ops"][st["rv"]["fields"].index(fld)]
+            os_ = origins(b_, op, taint=True)
+            shared = any(o.kind in ("place", "param") and o.what == 1 and ("." + fld) in o.proj for o in os_) and not any(o.kind == "call" and o.call.name.split("::")[-1] in ("new", "default") and "Arc" in o.call.name for o in os_)
+            r2.check(shared, "derived-pool-shares-gate:%s@%s" % (fld, b_.name.split("::")[-1]), "the pool built from `self` shares self.%s" % fld,
+                     "%s builds a pool from an existing one with a fresh `%s`: clients held on the existing pool wait on a gate that RESUME (which walks the pools in POOLS) never opens" % (b_.name.split("::")[-1], fld), st["span"])
     r2.check(fresh >= 2, "per-pool-gate", "every ConnectionPool is built with its own flag and Notify", "ConnectionPool construction no longer creates its own pause flag / Notify")
     # ---------------- R3
     r3 = ctx.rule("C16-R3", "every checkout in Client::handle is preceded, in the same idle-loop iteration, by wait_paused(), and nothing is sent to a server before it", floor=2)
